@@ -1,0 +1,16 @@
+//go:build verif
+
+package smobserver
+
+import (
+	abcitypes "github.com/tendermint/tendermint/abci/types"
+
+	"github.com/shutter-network/rolling-shutter/rolling-shutter/keyper/shutterevents"
+)
+
+// Verification hooks (build tag verif).
+
+// VerifMakeEvents is the driver's decoding step for the events of one block.
+func VerifMakeEvents(height int64, events []abcitypes.Event) []shutterevents.IEvent {
+	return makeEvents(height, events)
+}
